@@ -22,9 +22,9 @@ Magics == IF Level = 1 THEN {<<80, 50>>, <<80, 51>>, <<80, 53>>, <<80, 54>>, <<8
 Seps == IF Level = 1 THEN {<<32>>, <<10>>, <<32, 35, 99, 10>>}
         ELSE {<<32>>, <<32, 35, 99, 10>>, <<9, 13>>, <<>>, <<35, 99, 10>>}
 
-\* "1" "2" "3" "0" "65536"  |  "4294967295" "99999999999" "x" "-1" ""
-Nums == IF Level = 1 THEN {<<49>>, <<50>>, <<51>>, <<48>>, <<54, 53, 53, 51, 54>>}
-        ELSE {<<49>>, <<51>>, <<48>>, <<52, 50, 57, 52, 57, 54, 55, 50, 57, 53>>,
+\* "1" "2" "3" "0" "65536" "00000000002"  |  "4294967295" "99999999999" "x" "-1" ""
+Nums == IF Level = 1 THEN {<<49>>, <<50>>, <<51>>, <<48>>, <<54, 53, 53, 51, 54>>, <<48, 48, 48, 48, 48, 48, 48, 48, 48, 48, 50>>}
+        ELSE {<<49>>, <<51>>, <<48>>, <<52, 50, 57, 52, 57, 54, 55, 50, 57, 53>>, <<48, 48, 48, 48, 48, 48, 48, 48, 48, 48, 48, 48, 48, 48, 51>>,
               <<57, 57, 57, 57, 57, 57, 57, 57, 57, 57, 57>>, <<120>>}
 
 \* "255" "1"  |  "65535" "256"
@@ -38,7 +38,8 @@ Terms == IF Level = 1 THEN {<<32>>, <<10>>, <<>>}
 DataKinds == IF Level = 1 THEN {"exact", "short", "ws", "none"}
              ELSE {"exact", "short", "ws", "surplus", "bad"}
 
-SmallVal(tok) == IF Len(tok) = 1 /\ IsDigit(tok[1]) THEN tok[1] - 48 ELSE 1
+SmallVal(tok) == IF Len(tok) = 1 /\ IsDigit(tok[1]) THEN tok[1] - 48
+                 ELSE IF Len(tok) > 10 /\ tok[1] = 48 THEN tok[Len(tok)] - 48 ELSE 1
 
 \* binary data: bytes that look like whitespace, '#', digits, 0xFF
 WsPattern == <<32, 35, 10, 48, 255, 13, 9, 57>>
